@@ -5,9 +5,11 @@ package ice
 // every schedule a nomination leaves the agent only while it is controlling.
 
 import (
+	"context"
 	"encoding/json"
 	"fmt"
 	"os"
+	"testing/synctest"
 	"time"
 
 	"github.com/pion/ice/v4/internal/zzmc"
@@ -91,4 +93,73 @@ func checkRenominateRace(c *runCtx, dl time.Time) {
 		b = 3
 	}
 	csExplore(c, "renominate-vs-role-conflict", b, dl, nil)
+}
+
+// ---------------------------------------------------------------- C10: application data arriving while Restart closes the candidates
+
+func init() {
+	csScenarios["api-restart-vs-data"] = func() zzmc.Scenario { return c10restartVsData(false) }
+	csScenarios["api-close-vs-data"] = func() zzmc.Scenario { return c10restartVsData(true) }
+}
+
+// c10restartVsData: the first application datagram from a known remote address is on a candidate's socket (its
+// receive goroutine hands the validation to the task loop) while Restart — or Close — removes that candidate inside a
+// task and waits for the receive goroutine. Every call returns.
+func c10restartVsData(closing bool) zzmc.Scenario {
+	name := "api-restart-vs-data"
+	if closing {
+		name = "api-close-vs-data"
+	}
+
+	return zzmc.Scenario{
+		Name:     name,
+		Focus:    []string{"taskloop.go", "candidate_base.go"},
+		MaxSteps: 4000,
+		Setup: func(s *zzmc.Sched) func(string) (string, string) {
+			w := newWorld()
+			a, err := NewAgentWithOptions(WithNet(vNet{}), WithMulticastDNSMode(MulticastDNSModeDisabled), WithNetworkTypes([]NetworkType{NetworkTypeUDP4}),
+				WithCandidateTypes([]CandidateType{CandidateTypeHost}), WithLocalCredentials(vUfragA, vPwdA), WithLoggerFactory(nopFactory{}))
+			if err != nil {
+				panic(err)
+			}
+			sock := w.newSock("a0", "10.0.0.1", 1000, "")
+			w.newSock("p0", "10.0.1.1", 2000, "")
+			c, _ := NewCandidateHost(&CandidateHostConfig{Network: "udp", Address: "10.0.0.1", Port: 1000, Component: 1})
+			if err := a.addCandidate(context.Background(), c, sock); err != nil {
+				panic(err)
+			}
+			rc, _ := NewCandidateHost(&CandidateHostConfig{Network: "udp", Address: "10.0.1.1", Port: 2000, Component: 1})
+			_ = a.loop.Run(a.loop, func(context.Context) { a.addRemoteCandidate(rc) })
+			if _, err := a.StartAccept(vUfragB, vPwdB); err != nil {
+				panic(err)
+			}
+			fail := ""
+			done := false
+			var rerr error
+			s.Go("IN", func() { sock.in <- rxPacket{"10.0.1.1:2000", []byte{0x80, 'd', 'a', 't', 'a'}} })
+			s.Go("R", func() {
+				if closing {
+					rerr = a.Close()
+				} else {
+					rerr = a.Restart("", "")
+				}
+				done = true
+			})
+
+			return func(dead string) (string, string) {
+				if dead != "" {
+					_ = sock.Close()
+				}
+				synctest.Wait()
+				if !done {
+					fail += "CALL-DID-NOT-RETURN(the candidate's receive goroutine and the task that closes it wait for each other) "
+				} else if rerr != nil {
+					fail += "CALL-RETURNED-" + rerr.Error() + " "
+				}
+				_ = a.Close()
+
+				return fmt.Sprintf("done=%v", done), fail
+			}
+		},
+	}
 }
